@@ -554,7 +554,7 @@ bool Annotator::AnnotatorImpl::exists(const std::string &id, size_t index, bool 
     }
 
     auto count = mAnnotator->itemCount(id);
-    if (count == 1) {
+    if ((count == 1) && (index == 0)) {
         return true;
     }
     if (unique && count > 1) {
@@ -1311,7 +1311,7 @@ bool Annotator::AnnotatorImpl::validItem(const AnyCellmlElementPtr &item)
         break;
     case CellmlElementType::UNIT: {
         auto unitsItem = item->unitsItem();
-        result = (unitsItem != nullptr) && (unitsItem->units() != nullptr);
+        result = (unitsItem != nullptr) && unitsItem->isValid();
     } break;
     case CellmlElementType::UNITS:
         result = item->units() != nullptr;
@@ -1338,6 +1338,10 @@ void Annotator::AnnotatorImpl::removeId(const AnyCellmlElementPtr &item, const s
 std::string Annotator::AnnotatorImpl::setAutoId(const AnyCellmlElementPtr &item)
 {
     std::string newId;
+    if (item == nullptr) {
+        addIssueInvalidArgument(CellmlElementType::UNDEFINED);
+        return newId;
+    }
     if (validItem(item)) {
         if (mModel.lock() != nullptr) {
             auto oldId = id(item);
